@@ -9,6 +9,13 @@ TRUST = [
 ]
 
 CONFIG = {
+    "C16": {
+        "level": "exploration",
+        "assumptions": TRUST + ["the expected answer is computed by the harness's spec resolver (self-tested) over the schema the real merger returns for the same inputs",
+                                "lists in introspection answers are compared order-insensitively; an empty description and a null description are not distinguished"],
+        "quick": {"tests": [("TestC16", 800)], "shards": 4, "timeout": 600},
+        "thorough": {"tests": [("TestC16", 10000)], "shards": 16, "timeout": 2400},
+    },
     "C15": {
         "level": "exploration",
         "assumptions": TRUST + ["the downstream is the harness's spec-compliant introspection responder (self-tested against the harness's standard client: TestSelfIntrospection)",
